@@ -15,7 +15,15 @@ args = [a for a in args if a != "--reconfirm"]
 run_from = VERIF
 if "--verif" in args:
     i = args.index("--verif"); run_from = args[i + 1]; del args[i:i + 2]
+REPO = "/repo"
+if "--repo" in args:          # (a worktree of /repo at the same HEAD, so that several sweeps can run side by side)
+    i = args.index("--repo"); REPO = args[i + 1]; del args[i:i + 2]
+shard = None
+if "--shard" in args:
+    i = args.index("--shard"); shard = tuple(int(x) for x in args[i + 1].split("/")); del args[i:i + 2]
 names = args or sorted(os.path.basename(d) for d in glob.glob(os.path.join(VERIF, "seeded", "C*")) if os.path.isdir(d))
+if shard:
+    names = [n for k, n in enumerate(names) if k % shard[1] == shard[0]]
 MAP = {"cdns_encoder": "C06 C10 C01 C02 C13", "cdns_decoder": "C07 C05 C03 C08", "block.": "C01 C02 C04 C11 C12 C19 C17",
        "block_table": "C11 C19", "cdns.h": "C12 C13 C02 C01 C10", "cdns.cpp": "C05 C01 C08 C18", "file_preamble": "C09 C04 C02",
        "writer": "C14 C15 C16", "timestamp": "C17 C01", "interface": "C03 C01", "bin/": "C18 C03 C15", "hash": "C11 C19 C03"}
@@ -28,7 +36,7 @@ def sh(cmd, cwd=None, timeout=3600):
 
 def run_check(prop):
     t0 = time.time()
-    rc, out = sh("python3 tools/check.py %s --tier quick" % prop, cwd=run_from)
+    rc, out = sh(("CDNS_REPO=%s " % REPO if REPO != "/repo" else "") + "python3 tools/check.py %s --tier quick" % prop, cwd=run_from)
     viol = [l for l in out.splitlines() if l.startswith("VIOLATION")]
     res = {"exit": rc, "violation_line": viol[0] if viol else None, "summary": out.strip().splitlines()[-1][:300] if out.strip() else "",
            "wall_s": round(time.time() - t0, 1)}
@@ -45,9 +53,9 @@ def run_check(prop):
 
 
 def confirm(name, d, patch):
-    wt = "/tmp/sweepwt"
+    wt = "/tmp/sweepwt%s" % ("" if not shard else shard[0])
     if not os.path.isdir(wt):
-        sh("git -C /repo worktree add --detach %s HEAD" % wt)
+        sh("git -C /repo worktree add --detach %s %s" % (wt, head_full))
         sh("cmake -G Ninja -B _build -DBUILD_TESTS=ON -DBUILD_DOC=OFF", cwd=wt)
     sh("git checkout -- src tests", cwd=wt)
     rc, out = sh("git apply %s" % patch, cwd=wt)
@@ -76,11 +84,12 @@ def confirm(name, d, patch):
             "confirmed": bool(tests and with_ not in (0, None) and without == 0)}
 
 
-head = sh("git -C /repo rev-parse --short HEAD")[1].strip()
+head = sh("git -C %s rev-parse --short HEAD" % REPO)[1].strip()
+head_full = sh("git -C %s rev-parse HEAD" % REPO)[1].strip()
 vcommit = sh("git -C %s rev-parse --short HEAD" % VERIF)[1].strip()
-rc, out = sh("git -C /repo status --porcelain --untracked-files=no")
+rc, out = sh("git -C %s status --porcelain --untracked-files=no" % REPO)
 if out.strip():
-    print("/repo is not clean:", out); sys.exit(4)
+    print(REPO, "is not clean:", out); sys.exit(4)
 summary = []
 for name in names:
     d = os.path.join(VERIF, "seeded", name)
@@ -94,7 +103,7 @@ for name in names:
     final = {"repo_head": head, "verif_commit": vcommit, "when": time.strftime("%Y-%m-%d %H:%M:%S")}
     if reconfirm and not safe:
         final["reconfirmed_on_head"] = confirm(name, d, patch)
-    rc, out = sh("git -C /repo apply %s" % patch)
+    rc, out = sh("git -C %s apply %s" % (REPO, patch))
     if rc != 0:
         final["applies_to_head"] = False
         final["why"] = out[-300:]
@@ -110,13 +119,13 @@ for name in names:
                         props += [p for p in v.split() if p not in props]
             final["checks"] = {p: run_check(p) for p in props}
         finally:
-            sh("git -C /repo checkout -- .")
+            sh("git -C %s checkout -- ." % REPO)
         flagged = [p for p, r in final["checks"].items() if r["exit"] != 0 or r["violation_line"]]
         final["flagged_by"] = flagged
         print(name, ("ALARMS (false): %s" % flagged) if safe else ("caught_by: %s" % flagged),
               (" reconfirmed=%s" % final["reconfirmed_on_head"].get("confirmed")) if "reconfirmed_on_head" in final else "", flush=True)
     meta["final"] = final
     json.dump(meta, open(mp, "w"), indent=1)
-if os.path.isdir("/tmp/sweepwt"):
-    sh("git -C /repo worktree remove --force /tmp/sweepwt")
+for w in glob.glob("/tmp/sweepwt%s" % ("" if not shard else shard[0])):
+    sh("git -C /repo worktree remove --force %s" % w)
 print("SWEEP-DONE", flush=True)
